@@ -9,9 +9,9 @@
 // priming reads. Explicit-state BFS over the model state (content, per handle
 // the cache-filling events since its last write) with canonical-state
 // deduplication; every state's BFS-shortest path is replayed on a fresh
-// store+wrapper, followed by sweeps through all three handles (once in forward,
-// once in reverse order). Every read executed must equal the same call on the
-// wrapped memory graph at that moment.
+// store+wrapper and followed by a sweep through each of the three handles.
+// Every read executed must equal the same call on the wrapped memory graph at
+// that moment.
 package main
 
 import (
@@ -93,6 +93,11 @@ func queries() []lookup.Query {
 	add(lookup.TriplesForSubjectAndPredicate, na, pT2, nil)
 	add(lookup.TriplesForPredicateAndObject, nil, pT1, ob)
 	add(lookup.TriplesForPredicateAndObject, nil, pT2, ob)
+	// the same node in the other role: a key that confused the roles would collide
+	add(lookup.TriplesForSubject, nb, nil, nil)
+	add(lookup.PredicatesForSubject, nb, nil, nil)
+	add(lookup.TriplesForObject, nil, nil, model.ON(na))
+	add(lookup.PredicatesForObject, nil, nil, model.ON(na))
 	add(lookup.Triples, nil, nil, nil)
 	return qs
 }
@@ -484,7 +489,9 @@ func classes(ops []op, reads []read, mk []int, wanted map[[2]int]bool) map[[2]in
 	return out
 }
 
-var hyps = []hyp{{true, false}, {false, true}, {true, true}}
+// Order matters when more than one defect predicts the same answer: staleness
+// between handles first, then the key without Offset, then both together.
+var hyps = []hyp{{false, true}, {true, false}, {true, true}}
 
 // analyse gives every mismatch of one replay its class and shape.
 func analyse(ops []op, reads []read, mk []int, tt *truthTable, ms []mismatch) (class, shape []string) {
@@ -532,7 +539,8 @@ type mcase struct {
 	ReadStr string `json:"failing_read_text,omitempty"`
 }
 
-// replay executes ops on a fresh instance; mismatches at op index >= from are returned.
+// replay executes ops on a fresh store, wrapper and handles; mismatches at op
+// index >= from are returned.
 func replay(reads []read, ops []op, from int) (ms []mismatch, nreads int, fatal string) {
 	in, err := newInstance(reads)
 	if err != nil {
@@ -602,9 +610,6 @@ func main() {
 		return -1
 	}
 	singles := []int{find(lookup.Triples, 2), find(lookup.TriplesForSubject, 3), find(lookup.Objects, 2), len(reads) - 4 /* Exist(t0) */}
-	if r.Thorough() {
-		singles = append(singles, find(lookup.Triples, 0), find(lookup.TriplesForPredicate, 1), find(lookup.Triples, 5), find(lookup.PredicatesForSubject, 7))
-	}
 	var alphabet []op
 	for h := 0; h < 3; h++ {
 		for t := range universe {
@@ -617,10 +622,10 @@ func main() {
 			alphabet = append(alphabet, op{Kind: "read", H: h, R: s})
 		}
 	}
-	chains := [][]op{
-		{{Kind: "sweep", H: 0}, {Kind: "sweep", H: 1}, {Kind: "sweep", H: 2}},
-		{{Kind: "sweep-rev", H: 2}, {Kind: "sweep-rev", H: 1}, {Kind: "sweep-rev", H: 0}},
-	}
+	// After its path every state is observed through all three handles, in
+	// both grid orders (sweep-rev through h1/h3 is also an operation of the
+	// alphabet, so it is the last, checked, operation of a successor state).
+	chains := [][]op{{{Kind: "sweep", H: 0}, {Kind: "sweep-rev", H: 1}, {Kind: "sweep", H: 2}}}
 
 	type bnode struct {
 		m    mstate
@@ -632,16 +637,19 @@ func main() {
 	modelTransitions := 0
 	var mu sync.Mutex
 	capped := false
+	var levelSizes []int
+	dry := os.Getenv("VERIF_C19_DRY") != "" // development aid: count model states only
 	for d := 0; d <= depth && len(frontier) > 0; d++ {
 		if r.OutOfTime() {
 			capped = true
 			break
 		}
 		maxDepth = d
+		levelSizes = append(levelSizes, len(frontier))
 		// check every state of this level on the real code
 		shards := make([]lookup.Shard, len(frontier))
 		common.ParallelFor(len(frontier), func(i int) {
-			if r.OutOfTime() {
+			if r.OutOfTime() || dry {
 				return
 			}
 			nd := frontier[i]
@@ -662,10 +670,13 @@ func main() {
 				}
 				cls, shs := analyse(ops, reads, mk, &tt, ms)
 				for j, m := range ms {
-					executed := ops[:m.opIdx+1]
-					shards[i].Fail(common.Failure{Check: "memo", Class: cls[j], Shape: shs[j],
-						Case:   mcase{Options: nopts, Ops: executed, FailOp: m.opIdx, Read: m.readIdx, ReadStr: reads[m.readIdx].String()},
-						Detail: fmt.Sprintf("ops=%v\n %v through h%d\n wrapped graph: %s\n memoizer     : %s", executed, reads[m.readIdx], ops[m.opIdx].H+1, m.want, m.got)})
+					m := m
+					shards[i].FailLazy(cls[j], shs[j], func() common.Failure {
+						executed := ops[:m.opIdx+1]
+						return common.Failure{Check: "memo",
+							Case:   mcase{Options: nopts, Ops: executed, FailOp: m.opIdx, Read: m.readIdx, ReadStr: reads[m.readIdx].String()},
+							Detail: fmt.Sprintf("ops=%v\n %v through h%d\n wrapped graph: %s\n memoizer     : %s", executed, reads[m.readIdx], ops[m.opIdx].H+1, m.want, m.got)}
+					})
 				}
 			}
 			mu.Lock()
@@ -704,6 +715,10 @@ func main() {
 	r.Set("model_transitions", modelTransitions)
 	r.Set("traces_validated_against_impl", traces)
 	r.Set("evaluations", evals)
+	r.Set("states_per_depth", levelSizes)
+	if dry {
+		r.SetCapped()
+	}
 	r.Set("depth_completed", maxDepth)
 	r.Set("depth_bound", depth)
 	r.Set("alphabet", len(alphabet))
@@ -718,7 +733,7 @@ func main() {
 		}
 	}
 	r.Set("distinct_nontrivial", nonEmpty)
-	r.Set("rule", "BFS over (content, per-handle cache-filling events) with ops {add,remove} x 3 triples x 3 handles, sweep / reverse sweep x 3 handles, priming reads x 3 handles; each state replayed twice on a fresh wrapper followed by sweeps through all handles; nontrivial = (content, read) pairs whose answer is non-empty, i.e. cacheable")
+	r.Set("rule", "BFS over (content, per-handle cache-filling events) with ops {add,remove} x 3 triples x 3 handles, sweep / reverse sweep x 3 handles, priming reads x 3 handles; each state replayed on a fresh store+wrapper followed by a sweep through every handle; nontrivial = (content, read) pairs whose answer is non-empty, i.e. cacheable")
 	r.Sample(map[string]interface{}{"ops": []op{{Kind: "add", H: 0, T: 0}, {Kind: "sweep", H: 1}, {Kind: "add", H: 0, T: 2}, {Kind: "sweep", H: 1}}})
 	r.Sample(map[string]interface{}{"ops": []op{{Kind: "add", H: 2, T: 0}, {Kind: "add", H: 2, T: 1}, {Kind: "read", H: 0, R: singles[0]}, {Kind: "sweep-rev", H: 0}}})
 	r.Finish()
